@@ -13,7 +13,7 @@ EXPLANATION = (
     "(S3) whole-lot conversion is from the truncation-toward-zero family and applies only under `not fractional`; (S4) every value "
     "reaching Trade(quantity=) is non-zero on every path (NZ dataflow: allocation entries are non-zero, truncation may produce zero and "
     "must be followed by a dominating zero-skip); (S5) _Allocation drops Cash and zero entries and Trade.__init__ rejects both."
-    " No return is reachable without entering the trade loop unless guarded by an empty imbalance (S1.no-skip-before-the-loop); the trades executed are the list built for this request (C13.S4 clauses) and a continuous action is the allocation as given (C17.S4)."
+    " No return is reachable without entering the trade loop unless guarded by an empty imbalance (S1.no-skip-before-the-loop), and no `break` / `return` in the loop body lets one item decide for the items after it (S1.no-loop-exit); the trades executed are the list built for this request (C13.S4 clauses) and a continuous action is the allocation as given (C17.S4)."
 )
 DECIDED = ["S1 trade iff imbalance non-zero and (|w| >= threshold or untargeted)", "S2 liquidations always go through", "S3 whole lots by truncation toward zero",
            "S4 sub-lot imbalances skipped, never a zero-sized trade", "S5 cash never traded, zero entries never appear"]
